@@ -74,7 +74,8 @@ ASSUMES = [
 
 RETS = [None, False, 0, "", True, 1, "x", [0]]
 MAXDEPTH = 3
-MAXOPS = 400
+MAXOPS = 250
+MAXCALLS = 2500
 
 # ------------------------------------------------------------------ sender classes (created once per process)
 
@@ -221,6 +222,7 @@ class Session:
         self.pins = []
         self.findings = []
         self.nops = 0
+        self.ncalls = 0
         self.nweak = 0
         self.counts = {}
         cl = classes()
@@ -298,6 +300,7 @@ class Session:
             self.findings.append(("call-outside-emit", f"handler {h.hid} for ({h.sid},{h.name!r}) called while no emit/trigger was running"))
             return h.ret
         self.emit_stack[-1].place(self, rec)
+        self.ncalls += 1
         self.sinks.append(rec["sub"])
         self.pins.append({o["o"] for o in rec["got"] if isinstance(o, dict)})
         try:
@@ -429,7 +432,7 @@ class Session:
 
     def op_emit(self, op, h):
         _, sid, name, args = op
-        if len(self.emit_stack) >= MAXDEPTH:
+        if len(self.emit_stack) >= MAXDEPTH or self.ncalls > MAXCALLS:
             return
         oids = [a["o"] for a in args if isinstance(a, dict)]
         if not self.alive(sid, *oids):
@@ -452,7 +455,7 @@ class Session:
 
     def op_trigger(self, op, h):
         _, sid, how = op
-        if not self.alive(sid) or len(self.emit_stack) >= MAXDEPTH:
+        if not self.alive(sid) or len(self.emit_stack) >= MAXDEPTH or self.ncalls > MAXCALLS:
             return
         kind = self.kinds[sid]
         w = self.objs[sid]
@@ -912,6 +915,8 @@ def run(ctx):
             ctx.sample(wit, limit=3)
         if k % 4 == 0:
             for w2 in kill_sweep(rng, wit):
+                if not ctx.more(1.02):
+                    break
                 judge(ctx, w2)
                 ctx.count("kill_sweep_histories")
     reach.flush(ctx)
